@@ -299,6 +299,26 @@ pub fn check<S: Src>(s: &mut S) {
     assert!(x.0 == a && y.0 == b, "operands-unchanged");
 }
 """),
+    # the associated type may be written anywhere among the items of the base impl
+    "output-after-method": ("Add", """
+#[derive(Clone, PartialEq, Debug)]
+pub struct G(pub u8);
+pub const UNRELATED: u8 = 0;
+#[derive_ex(Add, AddAssign)]
+impl core::ops::Add<&G> for G {
+    fn add(self, rhs: &G) -> G { G(wop(1, self.0, rhs.0)) }
+    type Output = G;
+}
+pub fn check<S: Src>(s: &mut S) {
+    let (a, b) = (s.u8(), s.u8());
+    let (x, y) = (G(a), G(b));
+    let want = G(wop(1, a, b));
+    assert!(G(a) + G(b) == want && &x + &y == want && &x + G(b) == want, "forms");
+    let mut z = G(a);
+    z += &y;
+    assert!(z == want && y.0 == b, "assign-ref");
+}
+"""),
     "self-nested-in-output-of-ref-base": ("Sub", """
 #[derive(Clone, PartialEq, Debug)]
 pub struct G(pub u8);
